@@ -87,6 +87,11 @@ func runC07Session(c *Ctx, pki *tlsPKI, suite uint16, f c07Fault, idx int, ivMu 
 	mkCfgs := func() (*gmtls.Config, *gmtls.Config) {
 		scfg := &gmtls.Config{GMSupport: gmtls.NewGMSupport(), Certificates: []gmtls.Certificate{pki.sig, pki.enc}, CipherSuites: []uint16{suite}, Time: func() timeT { return fixedNow }, Rand: mon.NewRNG(r.U64()), KeyLogWriter: klog, SessionTicketsDisabled: true}
 		ccfg := &gmtls.Config{GMSupport: gmtls.NewGMSupport(), CipherSuites: []uint16{suite}, ServerName: tlsServerName, RootCAs: pki.pool, Time: func() timeT { return fixedNow }, Rand: mon.NewRNG(r.U64()), KeyLogWriter: klog, SessionTicketsDisabled: true}
+		if idx%3 == 2 { // (not a multiple of 2 or 4: the suite alternates with idx/2)
+			// a randomness source that hands out its bytes a few at a time (an io.Reader may): every IV, nonce and random
+			// field must still be filled completely with fresh bytes
+			scfg.Rand, ccfg.Rand = &shortReader{inner: mon.NewRNG(r.U64())}, &shortReader{inner: mon.NewRNG(r.U64())}
+		}
 		return ccfg, scfg
 	}
 	w := map[string]interface{}{"suite": suiteName(suite), "fault": f.String()}
@@ -235,6 +240,7 @@ func runC07Session(c *Ctx, pki *tlsPKI, suite uint16, f c07Fault, idx int, ivMu 
 	acc := 0
 	var prevLast []byte
 	gcmSeq := map[bool]uint64{}
+	prevIV := map[bool][]byte{}
 	for _, ri := range d.Records {
 		if ri.Protected {
 			if ref.SuiteIsGCM(suite) {
@@ -261,6 +267,20 @@ func runC07Session(c *Ctx, pki *tlsPKI, suite uint16, f c07Fault, idx int, ivMu 
 					}
 					prevLast = ri.LastBlock
 				}
+				// fresh means all of it: an IV that agrees with the previous IV of its direction in six or more byte positions
+				// was not drawn afresh (chance for two random IVs: about 3e-11)
+				if pv := prevIV[ri.FromClient]; len(pv) == len(ri.ExplicitIV) && len(pv) == 16 {
+					same := 0
+					for q := range pv {
+						if pv[q] == ri.ExplicitIV[q] {
+							same++
+						}
+					}
+					if same >= 6 {
+						rep.Violation("C07/wire/cbc-explicit-iv-only-partly-fresh", fmt.Sprintf("IV %x follows IV %x of the same direction: %d of 16 bytes unchanged", ri.ExplicitIV, pv, same), w)
+					}
+				}
+				prevIV[ri.FromClient] = append([]byte{}, ri.ExplicitIV...)
 			}
 		}
 		if ri.Type == ref.RecAppData && ri.FromClient == f.fromClient {
@@ -747,4 +767,26 @@ func runC07White(c *Ctx) {
 			rep.Exhaustive("CBC padding lengths 0..255 (reference-built records)")
 		}
 	}
+}
+
+// shortReader serves at most three bytes per Read call (and sometimes one), as a legal io.Reader may.
+type shortReader struct {
+	mu    sync.Mutex
+	inner *mon.RNG
+	n     int
+}
+
+func (s *shortReader) Read(p []byte) (int, error) {
+	s.mu.Lock()
+	defer s.mu.Unlock()
+	if len(p) == 0 {
+		return 0, nil
+	}
+	k := 1 + s.n%3
+	s.n++
+	if k > len(p) {
+		k = len(p)
+	}
+	s.inner.Fill(p[:k])
+	return k, nil
 }
